@@ -9,6 +9,7 @@ GROUPS = {
     'header': (['header_checksum', 'header_size_tables', 'header_cart_type_supported', 'header_cart_type_unsupported'], 900, False, None),
     'leaf': (['leaf_interleave'], 900, False, None),
     'strs': (['strs_parse_address_hex', 'strs_parse_address_dec'], 1800, False, 'ASCII tokens of at most 6 bytes'),
+    'irq': (['irq_dispatch'], 1800, False, None),
 }
 KANI_FILES = ['main.rs', 'misc.rs']
 REPO_FILES = {
@@ -16,6 +17,7 @@ REPO_FILES = {
     'header': ['src/cart.rs'],
     'leaf': ['src/devices/video/tile.rs'],
     'strs': ['src/debug/command.rs'],
+    'irq': ['src/emulator.rs', 'src/devices/io.rs', 'src/devices/interrupts.rs', 'src/cpu.rs'],
 }
 
 
@@ -28,6 +30,32 @@ def run(prop, group, tier, seed, Ob):
     for o in obs:
         if bound:
             o.bounded = bound
+    if group == 'irq':
+        import json, subprocess
+        todo = [o for o in obs if o.verdict == 'refuted'][:2]
+        if todo:
+            exe, err = kani_run.native_build()
+            for o in todo:
+                if exe is None:
+                    o.detail += '\n[no native replay: replay binary did not build: %s]' % (err or '')[-300:]
+                    continue
+                vals, err2 = kani_run.playback('h_misc', 'misc::harnesses::irq_dispatch', fast=False)
+                if vals is None:
+                    o.detail += '\n[playback: %s]' % err2
+                    continue
+                args = [exe, 'replay-irq'] + vals[:11]
+                p = subprocess.run(args, capture_output=True, text=True)
+                try:
+                    rep = json.loads(p.stdout.strip().splitlines()[-1])
+                except Exception:
+                    rep = {'error': 'replay output not understood (exit %s)' % p.returncode, 'stderr': p.stderr[-400:]}
+                rep['inputs_in_kani_any_order'] = vals[:11]
+                rep['command'] = 'build/kani/target/debug/gbverif ' + ' '.join(args[1:])
+                rep['confirmed_on_real_code'] = bool(rep.get('failed_checks'))
+                if rep['confirmed_on_real_code']:
+                    o.replay = rep
+                else:
+                    o.detail += '\n[native replay on a real core did not reproduce: %s]' % json.dumps(rep)[:600]
     info['unit'] = 'kani:misc:' + group
     info['status'] = 'ok' if not info.get('compile_error') else 'compile-error'
     info.setdefault('assumptions', [])
